@@ -72,6 +72,7 @@ pub fn base_spec(rng: &mut ChaCha8Rng, n: usize, policies: Vec<PolicySpec>, conc
         max_events: 20_000,
         gate_outputs: false,
         http: false,
+        lazy_callers: false,
     }
 }
 
@@ -259,7 +260,7 @@ impl Check for C13 {
         "exploration"
     }
     fn rule(&self) -> String {
-        "each evaluation is one simulated execution of n in {2,3} real PolicyState machines (one per party) on a seeded single-threaded tokio with paused clock: the explorer chooses the order of the schedule calls, of every validate / run / consts RPC delivery, of compile completions and (in a share of runs) of every single MPC msg delivery; every leader index; program templates without constants, with constants from one party and from two parties; output destination present or absent per party. Oracle: every schedule returns Ok, each party with a destination is sent exactly one result equal to the template's clear-text value, parties without destination none, every machine stops, no task panics, all permits back, no stall. distinct = distinct sequences of coordination events (saturation is reported)".into()
+        "each evaluation is one simulated execution of n in {2,3} real PolicyState machines (one per party) on a seeded single-threaded tokio with paused clock: the explorer chooses the order of the schedule calls, of every validate / run / consts RPC delivery, of compile completions and (in a share of runs) of every single MPC msg delivery; every leader index; program templates without constants, with constants from one party and from two parties; output destination present or absent per party. Oracle: every schedule returns Ok, each party with a destination is sent exactly one result equal to the template's clear-text value, parties without destination none, every machine stops, no task panics, all permits back, no stall. in a seventh of the runs the callers of schedule are slow (each schedule future is polled once when the call is made and not again before the end of the run): the answer must wait for them; distinct = distinct sequences of coordination events (saturation is reported)".into()
     }
     fn assumptions(&self) -> Vec<String> {
         vec![
@@ -293,10 +294,15 @@ impl Check for C13 {
             let mut spec = base_spec(&mut rng, n, vec![ps], vec![1; n], auto);
             // every third configuration runs through the real HTTP server nodes
             spec.http = k % 7 < 2;
+            // slow callers of schedule in another share (polled once, then only at the end of the run)
+            spec.lazy_callers = k % 7 == 3;
             cx.begin(&serde_json::to_value(&spec).unwrap());
             let run = server::run(&spec);
             if spec.http {
                 out.count("runs_through_real_http_server_nodes", 1);
+            }
+            if spec.lazy_callers {
+                out.count("runs_with_slow_schedule_callers", 1);
             }
             out.evals += 1;
             out.sim_steps += run.events;
@@ -604,6 +610,14 @@ fn c14_cases(base: &ServerSpec, base_run: &ServerRun, rng: &mut ChaCha8Rng) -> V
                 mk(format!("run-before-validation: party {p} after event {k}"), true, k, Action::StrayRun { party: p, comp: 1 }, &mut out);
                 mk(format!("consts-before-validation: party {p} after event {k}"), true, k, Action::StrayConsts { party: p, comp: 1, from: leader }, &mut out);
             }
+            // a second validate request after the genuine one, in whatever state the follower is
+            // then (still waiting for its own schedule call, validated, sending constants ...)
+            if validated_at < total {
+                let until = pos(&|x| x.starts_with(&format!("run {leader}>{p} "))).unwrap_or(total);
+                for k in (validated_at + 1)..=until.min(total) {
+                    mk(format!("repeated-validate: party {p} after event {k}"), true, k, Action::StrayValidate { party: p, comp: 1 }, &mut out);
+                }
+            }
             // validate in a late state (after the run request was delivered)
             if let Some(run_at) = pos(&|x| x.starts_with(&format!("run {leader}>{p} "))) {
                 for k in (run_at + 1)..stop_at.min(total + 1) {
@@ -623,7 +637,7 @@ impl Check for C14 {
         "fault_enumeration"
     }
     fn rule(&self) -> String {
-        "for each base configuration (n in {2,3}, every leader, with / without constants) the undisturbed run is recorded; then one stray command per simulated run is injected after event k, for every k at which the command is invalid for the state reached: duplicate schedule (leader and follower, every later point), run / consts before the machine is validated (every earlier point, incl. before its own schedule, where the router answers 'unknown computation'), validate after the run request (every later point), MPC message from sender index n, n+1, usize::MAX or the own index at every point incl. before scheduling; and every validate / run / consts RPC of the run delivered twice (retry after a lost response); the base run's decisions are replayed around the injection. Oracle: the stray call returns an error (own-index messages after scheduling are only required not to disturb), no task panics, and the computation under way still satisfies the C13 oracle (schedules Ok, exactly one correct result per destination, machines stop, permits back). distinct = (configuration, command, injection point)".into()
+        "for each base configuration (n in {2,3}, every leader, with / without constants) the undisturbed run is recorded; then one stray command per simulated run is injected after event k, for every k at which the command is invalid for the state reached: duplicate schedule (leader and follower, every later point), run / consts before the machine is validated (every earlier point, incl. before its own schedule, where the router answers 'unknown computation'), a second validate after the genuine one (every point up to the run request, whatever state the follower is in then) and validate after the run request (every later point), MPC message from sender index n, n+1, usize::MAX or the own index at every point incl. before scheduling; and every validate / run / consts RPC of the run delivered twice (retry after a lost response); the base run's decisions are replayed around the injection. Oracle: the stray call returns an error (own-index messages after scheduling are only required not to disturb), no task panics, and the computation under way still satisfies the C13 oracle (schedules Ok, exactly one correct result per destination, machines stop, permits back). distinct = (configuration, command, injection point)".into()
     }
     fn assumptions(&self) -> Vec<String> {
         vec!["commands that are valid in the state reached (e.g. an early copy of the leader's own validate) are not 'stray' in the property's sense and are not injected".into()]
